@@ -6,13 +6,29 @@ ROOT = os.path.dirname(os.path.dirname(os.path.abspath(__file__)))
 
 # id -> (implemented, technique, level text, level note, design ref)
 P = {
- "C01": (False, "", "", "", "§6 C01"),
+ "C01": (True,
+   "proptest generation of (source, schema, vars, flags, format, prefix) against validity oracles: independent SemVer recogniser / PEP 440 normaliser, zerv's own parser+check (round-trip), render fixed point for presets; L1 vs real-binary differential for the one-line contract",
+   '150k (quick) / 2.5M (thorough) generated runs of `zerv version` through the library entry point with nasty Unicode text in every free-text position, boundary numbers, all 22 presets and generated valid RON schemas, random override/bump/index flags; every successful output is judged by independent grammars and re-read by zerv; 1.5k/20k of the cases also go through the real binary to check prefix + exactly one line and agreement with the library call.',
+   'Trusts oracle::semver / oracle::pep440. Only successful runs are judged (failures belong to C13). Known finding F16 is absorbed by exact signature.',
+   "§6 C01"),
  "C02": (False, "", "", "", "§6 C02"),
  "C03": (False, "", "", "", "§6 C03"),
  "C04": (False, "", "", "", "§6 C04"),
- "C05": (False, "", "", "", "§6 C05"),
- "C06": (False, "", "", "", "§6 C06"),
- "C07": (False, "", "", "", "§6 C07"),
+ "C05": (True,
+   'model-based testing: proptest-generated flag sets against a reference model of the eleven precedence levels (differential, field-by-field on the emitted Zerv object), metamorphic flag-order permutation, plus exhaustive enumeration of all 2^11 bump subsets on three start versions',
+   'Start versions (canonical SemVer tags, PEP 440 tags in any spelling, stdin objects with arbitrary valid schemas and u64 vars) x context flags x random subsets of by-name overrides/bumps with boundary u32 amounts x index-addressed operations in the three index spellings (in/out of range, numeric and not) are run through `version --output-format zerv` and compared with the reference model, including expected rejections and overflow; a permuted argv must give the identical output.',
+   "Trusts harness/src/oracle/bump.rs, written from the statement; the five behaviours the statement leaves open are listed as assumptions in props/c05.rs. Uses zerv's own RON parser to read the emitted object (its losslessness is C12).",
+   "§6 C05"),
+ "C06": (True,
+   'proptest generation of (valid schema, vars) pairs against an independent reference renderer (differential, exact string equality for SemVer and PEP 440) through both the From conversions and `version --source stdin`; metamorphic tier law for the six smart presets',
+   'Arbitrary valid schemas (mixes of var/str/uint/ts/custom components in the three sections) x assignments (nasty text, boundary numbers, nested custom JSON, unset fields) are rendered by zerv and by a reference renderer built on the sanitiser and calendar models; for each smart preset two assignments that agree on dirty/distance/pre-release/post must yield the same schema.',
+   'Trusts harness/src/oracle/render.rs. PEP 440 strings are compared only when every number in a numeric slot fits u32 (above: F12b under C07). Epoch is None or >= 1; timestamps <= year 9999.',
+   "§6 C06"),
+ "C07": (True,
+   "round-trip and fixed-point (metamorphic) relations through `zerv render` over generated canonical-shape versions, all PEP 440 spellings, SemVer identifier soups and out-of-range numbers; expected PEP 440 shape computed by the harness; independent PEP 440 comparator for 'equal version'; binary differential",
+   'Canonical SemVer -> SemVer is the identity, -> PEP 440 equals the harness-computed shape, and back gives the original; every PEP 440 spelling -> SemVer -> PEP 440 is an equal version; every produced rendering is a fixed point; a number out of range is either rejected or preserved digit for digit.',
+   'Known finding F12b (numbers between 2^32 and 2^64 silently dropped when rendering a SemVer input to PEP 440) is absorbed by exact signature. A SemVer with no PEP 440 rendering may be refused.',
+   "§6 C07"),
  "C08": (True,
    'exhaustive short-string enumeration + grammar-directed proptest generation and mutation, differential against a hand-written SemVer 2.0.0 recogniser; print/parse round-trip; L1 vs real-binary differential for `check`',
    "Every suffix of '1.0.0' up to 6/7 symbols and every core string up to 7/8 symbols over grammar-relevant alphabets (incl. non-ASCII digit/letter) is decided against an independent recogniser of the SemVer BNF; generated valid strings with numbers up to 10^25 and their 1-2 symbol mutants are sampled; accepted strings must print back character for character; `zerv check` must agree in-process and through the binary.",
